@@ -18,10 +18,10 @@ PROPERTY = "C15"
 LEVEL = "exploration"
 RULE = (
     "create: method{linear,comoving,logspace} x closed x (zmin,zmax,num_bins){4} x unit{8} x scales{single,"
-    "3 overlapping} x rweight/resolution{3} x cosmology{default name, instance, other name, CustomCosmology with D_A != D_C/(1+z), closed LambdaCDM instance}; "
+    "3 overlapping} x rweight/resolution{4, incl. rweight=0.0} x cosmology{default name, instance, other name, CustomCosmology with D_A != D_C/(1+z), closed LambdaCDM instance; the last two are created after a decoy configuration with a sibling instance of the same class and other parameters}; "
     "custom edges; invalid alphabet (non-increasing edges, rmin>=rmax, unknown method/unit/cosmology, "
     "missing zmin/zmax/edges, length mismatch); modify: every single parameter value (incl. the falsy values zmin=0, zmax=0, num_bins=0, rweight=0) and every pair of "
-    "parameter values on 8 base configurations vs create(**merged). Non-trivial: non-default cosmology or "
+    "parameter values on 9 base configurations vs create(**merged). Non-trivial: non-default cosmology or "
     "non-linear method or a modification that changes the edges/angles. Distinct: canonical JSON."
 )
 ASSUMPTIONS = [
@@ -39,9 +39,34 @@ UNIT_SCALES = {
     "arcmin": (1.0, 10.0), "arcsec": (10.0, 100.0), "kpc/h": (100.0, 1000.0), "Mpc/h": (0.1, 1.0),
 }
 MULTI = ((1.0, 2.0), (1.5, 5.0), (3.0, 10.0))
-RW = ((None, None), (-1.0, 50), (0.5, 3))
+RW = ((None, None), (-1.0, 50), (0.5, 3), (0.0, 10))
 COSMOS = ("Planck15", "inst:Planck15", "WMAP9", "custom", "curved")
 CUSTOM_EDGES = [0.1, 0.2, 0.5, 0.9]
+
+
+_TOY = []
+
+
+def _toy_class():
+    """One CustomCosmology subclass for all instances (two instances differ in their parameters only)."""
+    if not _TOY:
+        from yaw.cosmology import CustomCosmology
+
+        class Toy(CustomCosmology):
+            def __init__(self, scale, curve):
+                self.scale, self.curve = scale, curve
+
+            def comoving_distance(self, z):
+                z = np.asarray(z, dtype=float)
+                return self.scale * z / (1.0 + self.curve * z)
+
+            def angular_diameter_distance(self, z):
+                z = np.asarray(z, dtype=float)
+                # deliberately not D_C/(1+z): the configured cosmology alone defines the physical scale
+                return self.comoving_distance(z) / (1.0 + z) / (1.0 + 0.1 * z)
+
+        _TOY.append(Toy)
+    return _TOY[0]
 
 
 def cosmo_obj(tag):
@@ -55,18 +80,10 @@ def cosmo_obj(tag):
     if tag == "curved":
         # spatially closed model: transverse and line-of-sight comoving distances differ
         return ac.LambdaCDM(H0=70.0, Om0=0.3, Ode0=0.9)
-    if tag == "custom":
-        class Toy(CustomCosmology):
-            def comoving_distance(self, z):
-                z = np.asarray(z, dtype=float)
-                return 3000.0 * z / (1.0 + 0.25 * z)
-
-            def angular_diameter_distance(self, z):
-                z = np.asarray(z, dtype=float)
-                # deliberately not D_C/(1+z): the configured cosmology alone defines the physical scale
-                return self.comoving_distance(z) / (1.0 + z) / (1.0 + 0.1 * z)
-
-        return Toy()
+    if tag == "curved-sibling":
+        return ac.LambdaCDM(H0=70.0, Om0=0.3, Ode0=0.5)
+    if tag in ("custom", "custom-sibling"):
+        return _toy_class()(*((3000.0, 0.25) if tag == "custom" else (1900.0, 0.6)))
     return tag
 
 
@@ -148,6 +165,8 @@ def cases(tier, seed):
              closed="right", cosmology="inst:WMAP9"),
         dict(rmin=100.0, rmax=1000.0, unit="kpc", zmin=0.1, zmax=1.0, num_bins=3, method="linear",
              closed="right"),
+        dict(rmin=0.1, rmax=1.0, unit="deg", zmin=0.1, zmax=1.0, num_bins=3, method="linear",
+             closed="left", rweight=0.0, resolution=10),
     ]
     mods = [
         ("scales", dict(rmin=50.0, rmax=2000.0)), ("scales", dict(rmin=[50.0, 100.0], rmax=[200.0, 400.0])),
@@ -276,6 +295,13 @@ def run_create(case):
     P = case["params"]
     v = []
     tag = f"{P.get('method', 'custom')}/{P.get('cosmology')}"
+    if P.get("cosmology") in ("curved", "custom"):
+        # an earlier configuration in the same process that differs only in the parameters of an unnamed cosmology of
+        # the same class: nothing of it may leak into the configuration that is checked
+        try:
+            yaw.Configuration.create(**realise(dict(P, cosmology=P["cosmology"] + "-sibling")))
+        except Exception:
+            pass
     try:
         conf = yaw.Configuration.create(**realise(P))
     except Exception as e:
